@@ -398,15 +398,7 @@ class SegHarness:
         c = self.conn
         if c.is_closed or c.is_defunct or not chunk:
             return
-        try:
-            c._iobuf.write(chunk)
-            c.process_io_buffer()
-        except Exception as exc:
-            self.error = repr(exc)
-            try:
-                c.defunct(exc)
-            except Exception:
-                pass
+        self.error = rf.guarded_feed(c, chunk) or self.error
 
     def project(self):
         """The connection's state in model units."""
